@@ -162,19 +162,34 @@ func (valdec mapDecoder) decodeObjectAsMap(dec *Decoder, p interface{}, tag byte
 	count := len(structInfo.names)
 	valdec.t.UnsafeSet(mp, valdec.t.UnsafeMakeMap(count))
 	dec.AddReference(p)
+	keyPtr := func(name string) unsafe.Pointer {
+		if valdec.kt.Kind() == reflect.Interface {
+			// the key slot of a map[interface{}]V holds an interface value, not a string
+			var key interface{} = name
+			return unsafe.Pointer(&key)
+		}
+		return reflect2.PtrOf(name)
+	}
 	if fields := structInfo.fields; fields != nil {
 		for _, name := range structInfo.names {
-			field := fields[name]
+			field, ok := fields[name]
+			if !ok {
+				// a field the registered struct does not have: keep it as decoded
+				var v interface{}
+				dec.decodeInterface(dec.NextByte(), &v)
+				valdec.t.UnsafeSetIndex(mp, keyPtr(name), reflect2.PtrOf(&v))
+				continue
+			}
 			vp := field.Type.UnsafeNew()
 			field.Decode(dec, field.Type.Type1(), vp)
 			v := field.Type.UnsafeIndirect(vp)
-			valdec.t.UnsafeSetIndex(mp, reflect2.PtrOf(name), reflect2.PtrOf(&v))
+			valdec.t.UnsafeSetIndex(mp, keyPtr(name), reflect2.PtrOf(&v))
 		}
 	} else {
 		for _, name := range structInfo.names {
 			var v interface{}
 			dec.decodeInterface(dec.NextByte(), &v)
-			valdec.t.UnsafeSetIndex(mp, reflect2.PtrOf(name), reflect2.PtrOf(&v))
+			valdec.t.UnsafeSetIndex(mp, keyPtr(name), reflect2.PtrOf(&v))
 		}
 	}
 	dec.Skip()
